@@ -177,6 +177,20 @@ CLAIMED["C12"] = (
     "DESIGN.md §3 C12",
     "Host-registered filters/functions/objects are assumed not to consult the undefined behavior.")
 
+CLAIMED["C05"] = (
+    "path-sensitive typestate analysis of the code generator over MIR (counter/stack abstract state, bottom-up summaries, recursive SCC verified neutral, agreement at joins) + scope-coverage rule for break/continue + parser in_loop reset rule + VM pairing / restore / handler rules",
+    "Static typestate check on every CFG path of every CodeGenerator method: frame, capture and auto-escape opening "
+    "instructions are balanced by their closers and the pending-block stack (Branch/Loop/ScBool/Scope) is properly "
+    "nested, so every instruction stream the compiler can emit is balanced; wherever child statements are compiled "
+    "inside a still-open scope that scope is registered so that break/continue close it before jumping, the closing "
+    "routine emits the matching instruction per scope kind, bodies that are separate evaluations (blocks, macros) "
+    "and the for-else body are parsed with in_loop reset; in the VM every nested-evaluation helper closes what it "
+    "opens on every path (reviewed error-path exception), with_execution_state writes back what it replaced, and the "
+    "handlers of the scope instructions perform exactly their operation.  This decides the property's structural "
+    "content for all templates the compiler accepts and all control-flow paths of the emitted code.",
+    "DESIGN.md §3 C05",
+    "Patched jump targets are tied to the pending-block nesting the check verifies; the run-time meaning of frames/captures themselves is trusted.")
+
 NOT_APPLICABLE = {
 }
 
